@@ -469,6 +469,22 @@ def tree_str(t, depth=0):
     return "?%s" % (t[1] if len(t) > 1 else "")
 
 
+class _Positional:
+    """body proxy that hides parameter/local names: canon() then renders roots as argN / _N"""
+    def __init__(self, body):
+        self._b = body
+
+    def local_name(self, l):
+        return None
+
+    def __getattr__(self, k):
+        return getattr(self._b, k)
+
+
+def canon_pos(t, body):
+    return canon(t, _Positional(body))
+
+
 def canon(t, body, depth=0, keep_index=False):
     """Canonical, line-free rendering of a tree for comparison with spec tables: paths are rendered with the
     parameter NAME as root and only named fields (tuple indices, derefs and downcasts dropped); refs, derefs and
